@@ -449,6 +449,15 @@ class G:
         self.name = name
         self.call = call
         self.labels = set(labels) if labels else set(PASS_LABELS)
+        # `x?` labels its edges pass/fail, `match x { Ok(..) / Some(..) .. }` labels them with the variant: the same decision
+        if self.labels & {'pass'} and not self.labels & {'Err', 'None', 'fail'}:
+            self.labels |= {'Ok', 'Some'} - ({'Some'} if 'None' in (labels or ()) else set())
+        if self.labels & {'Ok'} and 'Err' not in self.labels:
+            self.labels |= {'pass'}
+        if self.labels == {'Err'}:
+            self.labels |= {'fail'}
+        if self.labels == {'fail'}:
+            self.labels |= {'Err'}
         self.field = field
         self.cmp = cmp            # (patA, patB): comparison between values whose descriptions contain these
         self.cmp_want = set(cmp_want) if cmp_want else {'Equal'}
